@@ -89,6 +89,88 @@ theorem layout_matches_spec :
     withOffsets 0 MINIDUMP_SYSTEM_INFO = SPEC_SYSTEM_INFO := by
   refine ⟨by decide, by decide, by decide⟩
 
+/-- the documented `MINIDUMP_MISC_INFO_5` (minidumpapiset.h; `TIME_ZONE_INFORMATION`, `SYSTEMTIME`,
+    `XSTATE_CONFIG_FEATURE_MSC_INFO` inlined): (field, offset, width of one element, elements) -/
+def SPEC_MISC5_HEAD : List (String × Nat × Nat × Nat) :=
+  [("size_of_info", 0, 4, 1), ("flags1", 4, 4, 1), ("process_id", 8, 4, 1), ("process_create_time", 12, 4, 1),
+   ("process_user_time", 16, 4, 1), ("process_kernel_time", 20, 4, 1),
+   ("processor_max_mhz", 24, 4, 1), ("processor_current_mhz", 28, 4, 1), ("processor_mhz_limit", 32, 4, 1),
+   ("processor_max_idle_state", 36, 4, 1), ("processor_current_idle_state", 40, 4, 1),
+   ("process_integrity_level", 44, 4, 1), ("process_execute_flags", 48, 4, 1), ("protected_process", 52, 4, 1),
+   ("time_zone_id", 56, 4, 1),
+   ("time_zone.bias", 60, 4, 1), ("time_zone.standard_name", 64, 2, 32),
+   ("time_zone.standard_date.year", 128, 2, 1), ("time_zone.standard_date.month", 130, 2, 1),
+   ("time_zone.standard_date.day_of_week", 132, 2, 1), ("time_zone.standard_date.day", 134, 2, 1),
+   ("time_zone.standard_date.hour", 136, 2, 1), ("time_zone.standard_date.minute", 138, 2, 1),
+   ("time_zone.standard_date.second", 140, 2, 1), ("time_zone.standard_date.milliseconds", 142, 2, 1),
+   ("time_zone.standard_bias", 144, 4, 1), ("time_zone.daylight_name", 148, 2, 32),
+   ("time_zone.daylight_date.year", 212, 2, 1), ("time_zone.daylight_date.month", 214, 2, 1),
+   ("time_zone.daylight_date.day_of_week", 216, 2, 1), ("time_zone.daylight_date.day", 218, 2, 1),
+   ("time_zone.daylight_date.hour", 220, 2, 1), ("time_zone.daylight_date.minute", 222, 2, 1),
+   ("time_zone.daylight_date.second", 224, 2, 1), ("time_zone.daylight_date.milliseconds", 226, 2, 1),
+   ("time_zone.daylight_bias", 228, 4, 1),
+   ("build_string", 232, 2, 260), ("dbg_bld_str", 752, 2, 40),
+   ("xstate_data.size_of_info", 832, 4, 1), ("xstate_data.context_size", 836, 4, 1),
+   ("xstate_data.enabled_features", 840, 8, 1)]
+
+def expandSpec (l : List (String × Nat × Nat × Nat)) : List (String × Nat × Nat) :=
+  l.flatMap fun (n, off, w, cnt) =>
+    if cnt = 1 then [(n, off, w)] else (List.range cnt).map fun i => (s!"{n}[{i}]", off + i * w, w)
+
+def SPEC_MISC5 : List (String × Nat × Nat) :=
+  expandSpec SPEC_MISC5_HEAD ++
+  ((List.range 64).flatMap fun i =>
+    [(s!"xstate_data.features[{i}].offset", 848 + 8 * i, 4), (s!"xstate_data.features[{i}].size", 852 + 8 * i, 4)]) ++
+  [("process_cookie", 1360, 4)]
+
+/-- **C02.0b** the five misc-info revisions generated from `multi_structs!` are the documented
+    layout: revision 5 field by field, revisions 1..4 its prefixes of 24, 44, 232, 832 bytes. -/
+theorem misc_layout_matches_spec :
+    withOffsets 0 MINIDUMP_MISC_INFO_5 = SPEC_MISC5 ∧
+    MINIDUMP_MISC_INFO = MINIDUMP_MISC_INFO_5.take 6 ∧ MINIDUMP_MISC_INFO_2 = MINIDUMP_MISC_INFO_5.take 11 ∧
+    MINIDUMP_MISC_INFO_3 = MINIDUMP_MISC_INFO_5.take 98 ∧ MINIDUMP_MISC_INFO_4 = MINIDUMP_MISC_INFO_5.take 398 ∧
+    Layout.size MINIDUMP_MISC_INFO = 24 ∧ Layout.size MINIDUMP_MISC_INFO_2 = 44 ∧ Layout.size MINIDUMP_MISC_INFO_3 = 232 ∧
+    Layout.size MINIDUMP_MISC_INFO_4 = 832 ∧ Layout.size MINIDUMP_MISC_INFO_5 = 1364 := by
+  refine ⟨by decide +kernel, by decide +kernel, by decide +kernel, by decide +kernel, by decide +kernel,
+    by decide +kernel, by decide +kernel, by decide +kernel, by decide +kernel, by decide +kernel⟩
+
+/-- the documented validity rules of `MINIDUMP_MISC_INFO*` (Microsoft's MINIDUMP_MISC_INFO_N docs):
+    (field, first revision that has it, flag bit of `Flags1` that says it is valid) -/
+def SPEC_MISC_ACCESSORS : List (String × Nat × Option Nat) :=
+  [("size_of_info", 1, none), ("flags1", 1, none),
+   ("process_id", 1, some 0x1),
+   ("process_create_time", 1, some 0x2), ("process_user_time", 1, some 0x2), ("process_kernel_time", 1, some 0x2),
+   ("processor_max_mhz", 2, some 0x4), ("processor_current_mhz", 2, some 0x4), ("processor_mhz_limit", 2, some 0x4),
+   ("processor_max_idle_state", 2, some 0x4), ("processor_current_idle_state", 2, some 0x4),
+   ("process_integrity_level", 3, some 0x10), ("process_execute_flags", 3, some 0x20),
+   ("protected_process", 3, some 0x80), ("time_zone_id", 3, some 0x40), ("time_zone", 3, some 0x40),
+   ("build_string", 4, some 0x100), ("dbg_bld_str", 4, some 0x100),
+   ("xstate_data", 5, none), ("process_cookie", 5, some 0x200)]
+
+/-- **C02.0c `misc_fields_as_documented`** — the accessor table translated from `misc_accessors!(..)`
+    (which field exists from which revision on, and which `Flags1` bit guards it) is the documented
+    one; and an accessor answers `None` exactly when the struct read is older than the field or the
+    guarding bit is clear — for ALL revisions, flag words and values. A field moved behind another
+    flag, or to another revision, breaks the first part. -/
+theorem misc_fields_as_documented :
+    MISC_ACCESSORS = SPEC_MISC_ACCESSORS ∧
+    (∀ mi name since flag, (miscAccessWith mi name since flag).isSome =
+      (decide (since ≤ mi.ver) && (match flag with
+        | none => true
+        | some fl => (fld mi.vals 1 &&& fl) == fl))) := by
+  refine ⟨by decide, ?_⟩
+  intro mi name since flag
+  unfold miscAccessWith
+  by_cases h : mi.ver < since
+  · have : ¬ (since ≤ mi.ver) := by omega
+    simp [h, this]
+  · have : since ≤ mi.ver := by omega
+    cases flag with
+    | none => simp [h, this]
+    | some fl =>
+      simp only [h, if_false, this, decide_true, Bool.true_and, miscFlagSet]
+      by_cases hb : (fld mi.vals 1 &&& fl == fl) = true <;> simp [hb]
+
 /-- the hand-written system-info layout the model reads with IS the generated one -/
 theorem sysinfo_layout_generated : SYSTEM_INFO_LAYOUT = MINIDUMP_SYSTEM_INFO := by decide
 
@@ -147,11 +229,11 @@ example : lastOf 3 [(3, [1, 2]), (4, [9]), (3, [7])] = some ([7] : List UInt8) :
 
 /-! ## 3. "reading it back yields exactly the model: the same items in file order" -/
 
-/-- everything `decode` needs from the nine `get_stream` calls -/
+/-- everything `decode` needs from its `get_stream` calls -/
 theorem decode_of {b : Bytes} {d : Dump} (hd : readDump b = .ok d)
     {t : Except Err (List Thread)} {mo : Except Err (List Module)} {m5 m9 : Except Err (List Region)}
     {mi : Except Err (List MemInfo)} {tn : Except Err (List (Nat × List Nat))} {un : Except Err (List UnloadedModule)}
-    {x : Except Err Exception} {sy : Except Err RSysInfo}
+    {x : Except Err Exception} {sy : Except Err RSysInfo} {mc : Except Err MiscInfo}
     (h1 : streamRes d b ST_THREAD_LIST (fun s => readThreadList MemSizes.default s b d.endian) = .ok t)
     (h2 : streamRes d b ST_MODULE_LIST (fun s => readModuleList MemSizes.default s b d.endian) = .ok mo)
     (h3 : streamRes d b ST_MEMORY_LIST (fun s => readMemoryList MemSizes.default s b d.endian) = .ok m5)
@@ -160,7 +242,8 @@ theorem decode_of {b : Bytes} {d : Dump} (hd : readDump b = .ok d)
     (h6 : streamRes d b ST_THREAD_NAMES (fun s => readThreadNames MemSizes.default s b d.endian) = .ok tn)
     (h7 : streamRes d b ST_UNLOADED_MODULE_LIST (fun s => readUnloadedModuleList MemSizes.default s b d.endian) = .ok un)
     (h8 : streamRes d b ST_EXCEPTION (fun s => readException s b d.endian) = .ok x)
-    (h9 : streamRes d b ST_SYSTEM_INFO (fun s => readSystemInfo s b d.endian) = .ok sy) :
+    (h9 : streamRes d b ST_SYSTEM_INFO (fun s => readSystemInfo s b d.endian) = .ok sy)
+    (h10 : streamRes d b ST_MISC_INFO (fun s => readMiscInfo s d.endian) = .ok mc) :
     decode b = .ok
       { endian := d.endian, flags := d.header.flags,
         threads := t.map (fun l => l.map (rthreadOf b)),
@@ -170,8 +253,9 @@ theorem decode_of {b : Bytes} {d : Dump} (hd : readDump b = .ok d)
         threadNames := tn,
         unloaded := un.map (fun l => l.map munloadedOf),
         exception := x.map (rexceptionOf b),
-        sysInfo := sy } := by
-  simp only [decode, hd, h1, h2, h3, h4, h5, h6, h7, h8, h9, Res.bind]
+        sysInfo := sy,
+        miscInfo := mc } := by
+  simp only [decode, hd, h1, h2, h3, h4, h5, h6, h7, h8, h9, h10, Res.bind]
 
 /-- **C02.3 `decode_encode`** — for every well-formed model (lists of any length, any field values
     that fit the wire widths, names/CSD strings of arbitrary Unicode scalar values, all four
@@ -183,7 +267,9 @@ theorem decode_of {b : Bytes} {d : Dump} (hd : readDump b = .ok d)
     skipped), the MEMORY served by `get_memory()`, the MEMORY-INFO LIST, the THREAD NAMES (map by
     id, last wins), the UNLOADED-MODULE LIST, the EXCEPTION stream (record, 15 parameters, context
     bytes; `StreamNotFound` when the model has none) and SYSTEM INFO (all scalar fields, the 24 CPU
-    bytes, the CSD-version string; `StreamNotFound` when the model has none). -/
+    bytes, the CSD-version string; `StreamNotFound` when the model has none) and MISC INFO (the
+    revision 1..5 the stream's length selects — bytes after the struct are ignored — and every
+    scalar of that revision, flag-guarded or not; `StreamNotFound` when the model has none). -/
 theorem decode_encode {m : DumpModel} {f : MemForm} (wf : WellFormed m f) (e : Endian) :
     decode (encode m e f) = .ok (report m e f) := by
   have hd := readDump_encode wf e
@@ -260,6 +346,18 @@ theorem decode_encode {m : DumpModel} {f : MemForm} (wf : WellFormed m f) (e : E
       have := streamRes_ok (d := d) (reader := fun s => readSystemInfo s (encode m e f) e)
         (getRawStream_encode wf e ST_SYSTEM_INFO _ (core_sysInfo m e f hs) d rfl) hr
       simpa [report, hs] using this
+  -- misc info
+  have h10 : streamRes d (encode m e f) ST_MISC_INFO (fun s => readMiscInfo s e) = .ok (report m e f).miscInfo := by
+    cases hs : m.miscInfo with
+    | none =>
+      have := streamRes_notFound (d := d) (reader := fun s => readMiscInfo s e)
+        (getRawStream_encode_none wf e ST_MISC_INFO (no_miscInfo m f hs) d rfl)
+      simpa [report, hs] using this
+    | some x =>
+      have hr := readMiscInfo_enc (s := (encMiscInfo e x).toArray) (e := e) (x := x) (by simp) (wf.miscInfo x hs)
+      have := streamRes_ok (d := d) (reader := fun s => readMiscInfo s e)
+        (getRawStream_encode wf e ST_MISC_INFO _ (core_miscInfo m e f hs) d rfl) hr
+      simpa [report, hs] using this
   -- memory, by form
   cases f with
   | mem =>
@@ -271,7 +369,7 @@ theorem decode_encode {m : DumpModel} {f : MemForm} (wf : WellFormed m f) (e : E
       (getRawStream_encode wf e ST_MEMORY_LIST _ (core_memory m e) d rfl) hr1
     have h4 := streamRes_notFound (d := d) (reader := fun s => readMemory64List MemSizes.default s (encode m e .mem) e)
       (getRawStream_encode_none wf e ST_MEMORY64_LIST (no_memory64_in_mem m) d rfl)
-    rw [decode_of hd h1 h2 h3 h4 h5 h6 h7 h8 h9]
+    rw [decode_of hd h1 h2 h3 h4 h5 h6 h7 h8 h9 h10]
     simp only [hx2]
     simp only [Except.map, pickMemory, ht2, hm2, hr2, hi2, hu2]
     simp [report, hnobad, encHeaderVal]
@@ -284,7 +382,7 @@ theorem decode_encode {m : DumpModel} {f : MemForm} (wf : WellFormed m f) (e : E
       (getRawStream_encode wf e ST_MEMORY64_LIST _ (core_memory64 m e) d rfl) hr1
     have h3 := streamRes_notFound (d := d) (reader := fun s => readMemoryList MemSizes.default s (encode m e .mem64) e)
       (getRawStream_encode_none wf e ST_MEMORY_LIST (no_memory_in_mem64 m) d rfl)
-    rw [decode_of hd h1 h2 h3 h4 h5 h6 h7 h8 h9]
+    rw [decode_of hd h1 h2 h3 h4 h5 h6 h7 h8 h9 h10]
     simp only [hx2]
     simp only [Except.map, pickMemory, ht2, hm2, hr2, hi2, hu2]
     simp [report, hnobad, encHeaderVal]
@@ -307,7 +405,8 @@ def exampleModel : DumpModel :=
     exception := some ⟨7, 11, 0, 0, 1234, 2, [1, 2, 3, 4, 5, 6, 7, 8, 9, 10, 11, 12, 13, 14, 15], [0xaa]⟩,
     sysInfo := some ⟨9, 6, 0, 4, 1, 10, 0, 19041, 3, 0,
       [0, 1, 2, 3, 4, 5, 6, 7, 8, 9, 10, 11, 12, 13, 14, 15, 16, 17, 18, 19, 20, 21, 22, 23], [0x53, 0x1F600]⟩,
-    extra := [(3, [0, 0])] }
+    extra := [(3, [0, 0])],
+    miscInfo := some ⟨2, [44, 7, 1234, 1, 2, 3, 3000, 2000, 3000, 1, 2], [0xee, 0xff]⟩ }
 
 theorem validName_of_all (cs : List Nat) (h : cs.all (fun c => decide (c < 0xD800 ∨ (0xE000 ≤ c ∧ c < 0x110000))) = true) :
     ValidName cs := by
@@ -317,7 +416,7 @@ theorem validName_of_all (cs : List Nat) (h : cs.all (fun c => decide (c < 0xD80
 
 example : WellFormed exampleModel .mem ∧ WellFormed exampleModel .mem64 := by
   constructor <;>
-  · refine ⟨by decide, by decide, ?_, ?_, ?_, ?_, ?_, ?_, ?_, ?_, ?_⟩
+  · refine ⟨by decide, by decide, ?_, ?_, ?_, ?_, ?_, ?_, ?_, ?_, ?_, ?_⟩
     · intro t ht
       simp only [exampleModel, List.mem_singleton] at ht
       subst ht
@@ -352,6 +451,10 @@ example : WellFormed exampleModel .mem ∧ WellFormed exampleModel .mem64 := by
       subst hx
       exact ⟨by decide, by decide, by decide, by decide, by decide, by decide, by decide, by decide, by decide,
         by decide, by decide, validName_of_all _ (by decide)⟩
+    · intro x hx
+      simp only [exampleModel, Option.some.injEq] at hx
+      subst hx
+      exact ⟨by decide, by decide, fits_of_fitsB (by decide), by decide⟩
     · intro x hx
       simp only [exampleModel, List.mem_singleton] at hx
       subst hx
